@@ -69,8 +69,9 @@ type typeTable struct {
 	interfaces map[common.TypeID]*sema.InterfaceType
 }
 
-func newOracle(tt *typeTable) *oracle {
-	ch := tygen.PreludeChecker()
+func newOracle(w *world) *oracle {
+	ch := w.cChecker
+	tt := w.types
 	inter, err := interpreter.NewInterpreter(
 		interpreter.ProgramFromChecker(ch),
 		tygen.PreludeLocation,
